@@ -326,3 +326,12 @@ Definition run_row (r : option row) (kd : rkind) (a b : value) : youtcome :=
   | None => YStop
   | Some r => match denote r kd a b with Ok (v, _) => YVal v | Pan p => YPanic p | Bad => YBad end
   end.
+
+(* ------------------------------------------------------------------ argument copy of call() (run.go) *)
+
+(** A float as far as the argument copy of an interpreted call is concerned: a zero with its sign,
+    or any other bit pattern.  call() skips `dest.Set(val)` when reflect.Value.IsZero(val) holds,
+    which is true of both zeros, so the parameter keeps its initial value +0. *)
+Inductive fval := FZero (negative : bool) | FBits (bits : Z).
+Definition y_pass_arg (v : fval) : fval := match v with FZero _ => FZero false | FBits b => FBits b end.
+Definition g_pass_arg (v : fval) : fval := v.
